@@ -119,6 +119,7 @@ class PuritySim:
         self.node_counter = 0
         self.derived_from = {}
         self.cache_fp = {}
+        self.fresh_fills = []
         self.tainted = set()
 
     # -- knobs ------------------------------------------------------------------------------------
@@ -291,27 +292,50 @@ class PuritySim:
                     continue  # Preloads.set_* fills its own slots by design; the slots are not reported quantities (DESIGN 4.1)
                 self.stats["checked"] += 1
                 self.report("object_mutated", tn, keys[0], {"during": what, "attributes": keys}, "contents unchanged", "changed: " + ",".join(keys))
-        # I7: a populated cache entry IS what its quantity will report next; its bytes must not change while it stays populated
-        for nid, obj in list(self.world.env.items()):
-            d = getattr(obj, "__dict__", None)
-            if not d:
-                continue
-            seen = self.cache_fp.setdefault(nid, {})
-            names = [n for n in catalog.cached_names(type(obj)) if n in d]
-            for n in list(seen):
-                if n not in names:
-                    del seen[n]
-            for n in names:
-                val = d[n]
-                fp = (id(val), compare.digest(compare.canon(val)))
-                old = seen.get(n)
-                if old is not None and old[0] == fp[0] and old[1] != fp[1]:
-                    seen[n] = fp
-                    self.stats["checked"] += 1
-                    self.report("cache_entry_changed", type(obj).__name__, n, {"during": what.split(" ")[0]},
-                                "the stored value of a cached quantity keeps its bytes while it stays populated", "bytes changed in place")
+        # I7: a populated cache entry IS what its quantity will report next; its bytes must not change while it stays
+        # populated.  Audited on every library object REACHABLE from a node (sub-objects such as a mapper's mesh grid or a
+        # dataset's grids are not nodes themselves), each object once.
+        audited = set()
+        live = set()
+        for nid, root in list(self.world.env.items()):
+            for path, obj in catalog.reachable_objects(root):
+                if id(obj) in audited:
+                    continue
+                audited.add(id(obj))
+                d = getattr(obj, "__dict__", None)
+                if not d:
+                    continue
+                names = [n for n in catalog.cached_names(type(obj)) if n in d]
+                if not names:
+                    continue
+                live.add(id(obj))
+                if path and id(obj) in self.cache_fp:
+                    newly = [n for n in names if n not in self.cache_fp[id(obj)]]
+                elif path:
+                    newly = list(names)
                 else:
+                    newly = []
+                if newly and "[" not in path and not any(c.startswith("_") for c in path.split(".")):
+                    # S1 fill event on a sub-object: its sibling quantities are the most interesting thing to read next
+                    self.fresh_fills.append((nid, path, tuple(newly)))
+                    del self.fresh_fills[:-16]
+                # strong references to the object and to the stored values are kept, so no id can be reused while tracked
+                seen = self.cache_fp.setdefault(id(obj), {"<obj>": obj})
+                for n in list(seen):
+                    if n != "<obj>" and n not in names:
+                        del seen[n]
+                for n in names:
+                    val = d[n]
+                    fp = (val, compare.digest(compare.canon(val)))
+                    old = seen.get(n)
                     seen[n] = fp
+                    if old is not None and old[0] is fp[0] and old[1] != fp[1]:
+                        self.stats["checked"] += 1
+                        self.report("cache_entry_changed", type(obj).__name__, n, {"during": what.split(" ")[0], "reached_from": type(root).__name__, "path": path},
+                                    "the stored value of a cached quantity keeps its bytes while it stays populated", "bytes changed in place")
+        for k in list(self.cache_fp):
+            if k not in live:
+                del self.cache_fp[k]
         g = seams.globals_fingerprint()
         if g != self.globals0:
             changed = seams.diff_fingerprints(self.globals0, g)
@@ -550,6 +574,23 @@ class PuritySim:
             target = self.hot.pop(0)
             if target in env:
                 return self.read_op(client, target, rs)
+        # fill-triggered sibling reads: a sub-object whose cache entries were just filled
+        if self.fresh_fills and rs.random() < 0.5:
+            nid, path, newly = self.fresh_fills.pop(rs.randrange(len(self.fresh_fills)))
+            if nid in env:
+                try:
+                    sub = env[nid]
+                    for c in path.split("."):
+                        sub = sub.__dict__[c]
+                except Exception:  # noqa: BLE001
+                    sub = None
+                if sub is not None:
+                    names = catalog.readable_names(sub)
+                    cached = [n for n in catalog.cached_names(type(sub)) if not n.startswith("_")]
+                    if names:
+                        last = rs.choice(cached) if (cached and rs.random() < 0.5) else rs.choice(names)
+                        self.probe("fill_triggered_sibling_read")
+                        return {"op": "read", "client": client["name"], "target": nid, "q": {"t": "path", "names": path.split(".") + [last]}}
         uniform = rs.random() < k["p_uniform"]
         pool = [n for n in (self.world.order if uniform else client["nodes"]) if n in env]
         if not pool:
@@ -589,6 +630,16 @@ class PuritySim:
         names = catalog.readable_names(obj)
         if not names:
             return None
+        if rs.random() < 0.2:
+            # descend into a sub-object that is not a node itself and read one of ITS quantities (a path read)
+            subs = [(pth, sub) for pth, sub in catalog.reachable_objects(obj, max_depth=3, limit=60)
+                    if pth and "[" not in pth and not any(c.startswith("_") for c in pth.split(".")) and catalog.readable_names(sub)]
+            if subs:
+                pth, sub = rs.choice(subs)
+                sub_names = catalog.readable_names(sub)
+                cached = [n for n in catalog.cached_names(type(sub)) if not n.startswith("_")]
+                last = rs.choice(cached) if (cached and rs.random() < 0.5) else rs.choice(sub_names)
+                return {"op": "read", "client": client["name"], "target": target, "q": {"t": "path", "names": pth.split(".") + [last]}}
         # bias to cached properties (they are where history can hide)
         cached = [n for n in catalog.cached_names(type(obj)) if not n.startswith("_")]
         name = rs.choice(cached) if (cached and rs.random() < 0.35) else rs.choice(names)
